@@ -269,6 +269,14 @@ int32_t tls13NewTicket(ssl_t *ssl,
 # endif
 
     tag = psMalloc(ssl->hsPool, TLS_GCM_TAG_LEN);
+    if (tag == NULL)
+    {
+        psFree(state, ssl->hsPool);
+        psDynBufUninit(&buf);
+        tls13FreePsk(psk, ssl->hsPool);
+        psAesClearGCM(&ctx);
+        return PS_MEM_FAIL;
+    }
     psAesGetGCMTag(&ctx,
             TLS_GCM_TAG_LEN,
             tag);
@@ -365,6 +373,10 @@ int32_t tls13DecryptTicket(ssl_t *ssl,
 
     ptLen = encStateLen;
     pt = psMalloc(ssl->hsPool, ptLen);
+    if (pt == NULL)
+    {
+        goto out_internal_error;
+    }
 
     rc = psAesInitGCM(&ctx, key->symkey, key->symkeyLen);
     if (rc < 0)
